@@ -103,6 +103,11 @@ def desugar(raw, max_rounds=6):
                         n += 1
                         changed = True
                     continue
+                if f["fn"]["path"] == "std::cmp::Ordering::then_with":
+                    if _rewrite_then_with(b, bi, t, by_path):
+                        n += 1
+                        changed = True
+                    continue
                 if f["fn"]["path"] in CLOSURE_CALLS:
                     if _rewrite_closure_call(b, bi, t, by_path):
                         n += 1
@@ -348,6 +353,41 @@ def _rewrite_closure_call(body, bi, t, by_path):
     if cont is None:
         return False
     Bd.term(cont, {"t": "goto", "target": target})
+    return True
+
+
+def _rewrite_then_with(body, bi, t, by_path):
+    """`a.then_with(f)` with a statically known closure f that calls nothing of the crate (a pure comparison):
+    `a.then(f())` — evaluating f eagerly changes nothing a rule can observe, and the ordering decoders read `then`"""
+    args = t["args"]
+    if len(args) != 2 or t["dest"]["p"] or t.get("target") is None:
+        return False
+    cl = _closure_of(body, args[1])
+    if cl is None:
+        return False
+    cands = by_path.get(cl[1], [])
+    if len(cands) != 1 or cands[0]["arg_count"] != 1:
+        return False
+    for blk in cands[0]["blocks"]:
+        tt = blk["term"]
+        if tt.get("t") == "call":
+            fn = tt.get("func", {}).get("fn") if tt.get("func", {}).get("k") == "const" else None
+            if fn is None or fn.get("local") or fn.get("resolved_local"):
+                return False
+    Bd = B(body, t["span"])
+    tmp = Bd.local("std::cmp::Ordering")
+    target, unwind = t["target"], t.get("unwind")
+    dest = copy.deepcopy(t["dest"])
+    first = copy.deepcopy(args[0])
+    cont = _apply(Bd, body, by_path, bi, args[1], [], tmp, "std::cmp::Ordering", unwind)
+    if cont is None:
+        return False
+    fn = copy.deepcopy(t["func"])
+    fn["fn"]["path"] = "std::cmp::Ordering::then"
+    for k in ("resolved", "inst"):
+        if k in fn["fn"]:
+            fn["fn"][k] = fn["fn"][k].replace("then_with", "then") if isinstance(fn["fn"][k], str) else fn["fn"][k]
+    Bd.term(cont, {"t": "call", "func": fn, "args": [first, mv(tmp, "std::cmp::Ordering")], "dest": dest, "target": target, "unwind": unwind})
     return True
 
 
